@@ -56,6 +56,17 @@ func HarnessC03a() {
 	_, gerr := t.Get(vctx, probe, &out)
 	verifClass("C03.links-to-unstored-nodes-after-failed-persist", st.failed > 0)
 	verifAssert("C03.usable-after-error.get", gerr == nil)
+	// a second tree with the same contents, persisted through the same store and cache: success
+	// only if complete (a failed write must not count as "already persisted")
+	b, berr := NewRoot(&CreateRemoteOptions{BranchFactor: bf}).LoadMast(vctx, cfg)
+	verifAssert("C01.new.err", berr == nil)
+	for _, k := range ks {
+		_, v := md.lookup(k)
+		verifAssert("C01.insert.err", b.Insert(vctx, symKey{k}, v) == nil)
+	}
+	if rb, berr := b.MakeRoot(vctx); berr == nil {
+		verifAssert("C03.second-tree-root-is-complete", rootComplete(st, rb))
+	}
 	// retry: success only if everything reachable really is in the store
 	r2, err2 := t.MakeRoot(vctx)
 	if err2 == nil {
